@@ -1,0 +1,75 @@
+//go:build verif
+
+package clone
+
+// Contracts for package clone, checked by /verif/govc.  Comment-only file.
+
+//@ import "github.com/csgura/fp/internal/veriflaws"
+//@ import "github.com/csgura/fp/hlist"
+//@ import "github.com/csgura/fp/lazy"
+//
+//@ lemma givenDef[T any](a T)
+//@   prop C18
+//@   ensures Eq(Given[T]().Clone(a), a)
+//@   tag equalCopy
+//
+//@ lemma newDef[T any](f func(T) T, a T)
+//@   prop C18
+//@   ensures EqT(New(f).Clone(a), f(a))
+//@   tag appliesFunction
+//
+//@ lemma hnilDef(a hlist.Nil)
+//@   prop C18
+//@   ensures Eq(HNil.Clone(a), a)
+//@   tag equalCopy
+//
+//@ lemma optionDef[T any](c fp.Clone[T], v T, o fp.Option[T])
+//@   prop C18
+//@   ensures Eq(Option(c).Clone(fp.None[T]()), fp.None[T]())
+//@   tag none
+//@   ensures Eq(Option(c).Clone(fp.Some(v)), fp.Some(c.Clone(v)))
+//@   tag some
+//@   ensures veriflaws.CloneIsCopy(c) ==> Eq(Option(c).Clone(o), o)
+//@   tag equalCopy
+//
+//@ lemma hconsDef[H any, T hlist.HList](hc fp.Clone[H], tc fp.Clone[T], l hlist.Cons[H, T])
+//@   prop C18
+//@   ensures Eq(HCons(hc, tc).Clone(l), hlist.Concat(hc.Clone(hlist.Head(l)), tc.Clone(hlist.Tail(l))))
+//@   tag componentwise
+//@   ensures veriflaws.CloneIsCopy(hc) && veriflaws.CloneIsCopy(tc) ==> Eq(HCons(hc, tc).Clone(l), l)
+//@   tag equalCopy
+//
+//@ lemma hconsNilDef[H any](hc fp.Clone[H], l hlist.Cons[H, hlist.Nil])
+//@   prop C18
+//@   ensures Eq(HCons(hc, HNil).Clone(l), hlist.Concat(hc.Clone(hlist.Head(l)), hlist.Nil{}))
+//@   tag componentwise
+//@   ensures veriflaws.CloneIsCopy(hc) ==> Eq(HCons(hc, HNil).Clone(l), l)
+//@   tag equalCopy
+//
+//@ lemma genericDef[A, Repr any](gen fp.Generic[A, Repr], rc fp.Clone[Repr], a A)
+//@   prop C18
+//@   requires gen.To != nil && gen.From != nil
+//@   ensures Eq(Generic(gen, rc).Clone(a), gen.From(rc.Clone(gen.To(a))))
+//@   tag viaRepr
+//@   ensures veriflaws.CloneIsCopy(rc) && (forall x A :: Eq(gen.From(gen.To(x)), x)) ==> Eq(Generic(gen, rc).Clone(a), a)
+//@   tag equalCopy
+//
+//@ schema N=2..21
+//@ lemma tuple{N}Def[<<i=1..N|, |A$i>> any](<<i=1..N|, |c$i fp.Clone[A$i]>>, t fp.Tuple{N}[<<i=1..N|, |A$i>>])
+//@   prop C18
+//@   ensures Eq(Tuple{N}(<<i=1..N|, |c$i>>).Clone(t), fp.Tuple{N}[<<i=1..N|, |A$i>>]{<<i=1..N|, |I$i: c$i.Clone(t.I$i)>>})
+//@   tag componentwise
+//@   ensures <<i=1..N| && |veriflaws.CloneIsCopy(c$i)>> ==> Eq(Tuple{N}(<<i=1..N|, |c$i>>).Clone(t), t)
+//@   tag equalCopy
+//@ schema end
+//
+//@ lemma ptrDef[T any](c fp.Clone[T], p *T)
+//@   prop C18
+//@   ensures Eq(Ptr(lazy.Done(c)).Clone(nil), (*T)(nil))
+//@   tag nilToNil
+//@   ensures p != nil ==> Ptr(lazy.Done(c)).Clone(p) != nil && Ptr(lazy.Done(c)).Clone(p) != p
+//@   tag freshNonNil
+//@   ensures p != nil ==> Eq(*Ptr(lazy.Done(c)).Clone(p), c.Clone(*p))
+//@   tag targetIsInstanceClone
+//@   ensures p != nil && veriflaws.CloneIsCopy(c) ==> Eq(*Ptr(lazy.Done(c)).Clone(p), *p)
+//@   tag equalCopy
